@@ -21,6 +21,7 @@ LEVEL_TEXT = ("every request sequence up to length 3 (quick) / 4 (thorough) over
               "constraint sets x method classes (SLSQP, COBYLA, L-BFGS-B, Nelder-Mead, DE sequential, DE vectorized batches); sampled length 6-8; real methods on small problems")
 LEVEL_NOTE = "trusted: reference value model (finite differences on a quadratic ensemble with an injected axis design), the interceptor; pool points are identical or >=0.05 apart"
 ANCHOR_FILES = ["src/ropt/plugins/optimizer/scipy.py", "src/ropt/plugins/optimizer/utils.py", "src/ropt/optimization/_optimizer.py", "src/ropt/ensemble_evaluator/_ensemble_evaluator.py"]
+EXECUTION_COUNTERS = ["scripts", "real_method_runs"]   # executions of the oracle inside the cases (reported as coverage.evaluations)
 RULE = ("case = (method class, constraint set, speculative, split, first request(s)) with every continuation inside; a script is non-trivial if it visits at least two different points or requests "
         "two different quantities; distinct key = case; monitor_counters: scripts, values compared, epochs checked")
 ASSUMPTIONS = ["points of the pool are identical or separated by much more than the plug-in's allclose tolerance", "the scripted algorithm calls the callables the way SciPy does (1-D points; (V,S) batches for vectorized DE)"]
